@@ -4,7 +4,7 @@ as is, with per-use leaf copies, fully tree-expanded, or in another construction
 import numpy as np
 
 from . import ops
-from .world import SEAM
+from .world import SEAM, LINES
 
 
 class TooBig(Exception):
@@ -31,6 +31,7 @@ class Graph:
         try:
             res = ops.as_list(ops.apply_op(self.SG, ev["op"], xs, ev["args"]))
         finally:
+            LINES.disarm()          # line-level crash points end with the system call; the bookkeeping below reads library properties
             if trace_bfs:
                 created, SEAM.bw_created = SEAM.bw_created, saved
         if trace_bfs:
